@@ -60,6 +60,7 @@ def run(ctx) -> None:
         from . import c01, c04
 
         ctx.reuse("C07.pairing", c01.pair_transfer, dev)
+        ctx.reuse("C07.record-pair", c01.numbering_hook, dev)
         # both records of a pair are produced by the same filter / kwargs discipline in aspirate and dispense
         for meth, track, kind in (("aspirate", "remove", "A"), ("dispense", "add", "D")):
             ctx.reuse("C07.record-pair", c01.pair_ad, dev, meth, track, kind)
